@@ -7,6 +7,30 @@ ALL = ["C%02d" % i for i in range(1, 21)]
 
 # id -> (engine, technique, level text, level note, design_ref)
 CHECKS = {
+ "C01": ("enum", "bounded-exhaustive enumeration of byte streams (complete small alphabets, segment sequences, single-frame mutation sweeps) against an independent frame predicate",
+         "Every string up to length 6/8 over alphabets built from a valid frame's own bytes, every sequence of <=3/4 menu segments and every single-bit/burst/byte/truncation/length-field mutation of frames of every payload length is pushed through the stream handler and GetMessage; each typed result must be exactly one CRC-valid frame by the independent bitwise CRC-24Q predicate. Complete within the stated alphabets and lengths, no sampling.",
+         "Trusts /verif/ref (bitwise CRC-24Q, IsFrame). Streams outside the enumerated shapes (longer than 8 symbols and not a menu sequence / single-frame mutation) are not covered.", "5/C01"),
+ "C02": ("mc", "bounded-exhaustive input enumeration through the sequential framing seam + stateless model checking of producer/HandleMessages/consumer under a controlled scheduler (all interleavings, state-key pruning)",
+         "Input dimension: complete enumeration of short strings, frame cuts and menu sequences with the oracle concat(RawData)==input. Schedule dimension: the real HandleMessages, instrumented at build time, is run with a producer and a consumer thread under a scheduler that owns every channel operation; for each stream and channel-capacity pair every interleaving is explored (the unbounded pass completes for all quick-tier scenarios) and losslessness, single close, no panic and no blocked thread are checked on each.",
+         "Scheduling points are channel operations of rtcm/handler and rtcm/pushback; the channel/goroutine semantics are those of mc/mcrt (validated by its conformance tests against the Go runtime).", "5/C02"),
+ "C03": ("enum", "bounded-exhaustive enumeration of segment sequences (valid frames of all lengths, D3-free junk, truncated tails) against the constructed expected segmentation",
+         "All sequences of <=3/4 segments from 14 frames and 5 junk runs, every truncation position of a tail frame, and every payload length 1..1023 alone/between junk/back-to-back; the delivered (type, bytes) list must equal the constructed list exactly.",
+         "Precondition (no stray 0xD3 in junk) holds by construction. Sequences longer than 4 segments are not covered.", "5/C03"),
+ "C09": ("mc", "stateless model checking of the real reader->framing->fan-out pipeline under a controlled scheduler (all interleavings and source chunkings per scenario, state-key pruning; deviation-bounded where the budget cuts the unbounded pass)",
+         "AppCore.HandleMessagesUntilEOF, file_handler, HandleMessages and the push-back channel run instrumented under a scheduler owning every goroutine, channel operation and source Read. For 11 streams x 6 consumer lists every interleaving and chunking is explored where feasible; each consumer must receive exactly the sequential framing of the bytes, the call must return 0, all goroutines must finish, and no thread may panic.",
+         "Threads share memory only through channels (state-key pruning relies on it). 'No data race' is outside the cooperative scheduler and only touched by the auxiliary -race pass. Evidence lists scenarios whose unbounded pass was cut and the bound completed for them.", "5/C09"),
+ "C12": ("enum", "bounded-exhaustive fault enumeration: every bit flip, 2-bit burst and byte overwrite of payload+CRC of a victim frame in every position of 3-segment streams, differential against the uncorrupted stream",
+         "For victim lengths 1..255 (1023 thorough) in each of three positions between frame and junk neighbours, every CRC-breaking corruption in the enumerated classes must yield the same delivery list with the victim replaced by one non-RTCM message of exactly its bytes.",
+         "Corruption sets beyond single/double adjacent flips, single byte overwrites and D3 pairs are not enumerated.", "5/C12"),
+ "C13": ("mc", "fault-sequence enumeration under the controlled scheduler with a virtual clock: EOF/timeout runs and errors injected at every byte position, combined with preemptions, up to a deviation bound",
+         "file_handler.Handle runs instrumented (virtual time.Now/Sleep) over a scripted source; at every Read the explorer may inject EOF runs (1-4), timeouts (1, 4) or another error. All combinations of <=2/3 deviations (faults + preemptions) are explored for 7 streams x 3 tolerance settings x 2 channel capacities; delivered messages must equal the framing of exactly the supplied bytes, giving up must respect the tolerance, zero tolerance must stop at once, the read error must be returned and the channel closed once.",
+         "Deviation-bounded, not unbounded (the fault space is infinite by construction). Time is virtual; real OS timing is not modelled.", "5/C13"),
+ "C14": ("enum", "exhaustive enumeration of all bit patterns of small buffers x all (pos,width), plus all widths 1..64 x all alignments x structured patterns, against shift-and-mask / math/big references",
+         "E1 is complete over 2-byte (quick) / 3-byte (thorough) buffers: every bit pattern, every field position and width, unsigned and signed. E2 covers every width 1..64 at every alignment on exactly-sized and oversized buffers with walking-bit, pair and complement patterns, so influence of outside bits and out-of-field reads are detected.",
+         "Fields wider than 24 bits are checked on structured patterns, not all 2^64 values.", "5/C14"),
+ "C18": ("mc", "explicit-state BFS over the real queue (capacities 1..8, canonicalised states) + stateless model checking of concurrent adders/readers with preemption bounding and a brute-force linearizability oracle",
+         "Sequential: every reachable canonical state and transition for capacities 1..8 is compared with a slice model, plus 10^4-addition runs. Concurrent: the real queue with its sync import routed to the scheduler and yield points at every function/loop entry is run with 3 threads; every schedule with <=2/3 preemptions is explored and each call/return history must be linearizable.",
+         "Yield-point granularity (function and loop entry, lock operations). 'No data race' only via the auxiliary -race pass. RWMutex writer preference not modelled (superset).", "5/C18"),
  "C20": ("enum", "complete enumeration of the 4098 message types against an independent classification table",
          "Every one of the 4096 message types and both negative sentinels is run through every classification entry point, a synthetic header-only frame of that type through GetMessage/Analyse/String at both log levels, and all four decoders; the space is finite and enumerated completely, so within the observation set this is a decision, not a sample.",
          "Trusts the independent table in props/c20.go (MSM4/MSM7 = 1074..1137 ending 4/7, names by stem). Synthetic frames have empty masks only.", "5/C20"),
